@@ -125,11 +125,24 @@ def impl_main(payload):
             orc["viol"].append("gradient evaluation raised %r for stack %r" % (e, base))
             continue
         orc["checks"] += 1
-        if not (np.array_equal(f0, fx, equal_nan=True) and np.array_equal(f0, fc, equal_nan=True)):
+        f0a, fxa, fca = np.asarray(f0), np.asarray(fx), np.asarray(fc)
+        # known finding F9b: when evaluation raises internally (plain evaluation is NaN everywhere) the gradient entry points
+        # return the VALUE as an all-NaN array shaped like the gradient (M-by-D, M-by-L) instead of M-by-1
+        # (plain evaluation may be -inf there, e.g. log|0| of a constant-only sub-expression: the forward pass survives, the
+        # reverse pass divides by zero; the point is outside the property's domain either way)
+        raised = f0a.shape == (M, 1) and not bool(np.any(np.isfinite(f0a)))
+        f9b_x = raised and fxa.shape == (M, D) and bool(np.all(np.isnan(fxa)))
+        f9b_c = raised and fca.shape == (M, L) and bool(np.all(np.isnan(fca)))
+        okx = np.array_equal(f0a, fxa, equal_nan=True) or f9b_x
+        okc = np.array_equal(f0a, fca, equal_nan=True) or f9b_c
+        orc["f9b_instances"] = orc.get("f9b_instances", 0) + int((f9b_x and fxa.shape != (M, 1)) or (f9b_c and fca.shape != (M, 1)))
+        if not (okx and okc):
             orc["viol"].append("the value returned together with a gradient differs from plain evaluation; stack %r" % (base,))
         used_x = {row[1] for i, row in enumerate(base) if util[i] and row[0] == 0}
+        finite_rows = np.isfinite(f0a.reshape(-1)) if f0a.shape == (M, 1) else np.zeros(M, dtype=bool)
         for kcol in range(D):
-            if kcol not in used_x and np.any(np.asarray(dfdx)[:, kcol] != 0):
+            # only where the function is finite: a NaN value has no derivative to speak of
+            if kcol not in used_x and np.any(np.asarray(dfdx)[finite_rows, kcol] != 0):
                 orc["viol"].append("input X_%d is not used but its derivative is %r; stack %r" % (kcol, np.asarray(dfdx)[:, kcol].tolist(), base))
         for r in range(M):
             if not rows_ok(st2, util, x[r], cs):
@@ -141,6 +154,11 @@ def impl_main(payload):
                 xp[kcol] += h
                 xm[kcol] -= h
                 fd = (float(c01.ref_eval(st2, xp, cs)) - float(c01.ref_eval(st2, xm, cs))) / (2 * h)
+                xp[kcol] += 2 * h
+                xm[kcol] -= 2 * h
+                fd3 = (float(c01.ref_eval(st2, xp, cs)) - float(c01.ref_eval(st2, xm, cs))) / (6 * h)
+                if not (math.isfinite(fd3) and abs(fd - fd3) <= 2e-5 * (1 + abs(fd))):
+                    continue        # the difference quotient itself has not converged (rapidly varying function): no verdict
                 an = float(np.asarray(dfdx)[r, kcol])
                 if math.isfinite(fd) and not (abs(an - fd) <= 2e-4 * (1 + abs(fd))):
                     orc["viol"].append("d/dX_%d at %r is %r, finite differences of the evaluated function give %r; stack %r constants %r"
@@ -150,6 +168,11 @@ def impl_main(payload):
                 cp[j] += h
                 cm[j] -= h
                 fd = (float(c01.ref_eval(st2, x[r], cp)) - float(c01.ref_eval(st2, x[r], cm))) / (2 * h)
+                cp[j] += 2 * h
+                cm[j] -= 2 * h
+                fd3 = (float(c01.ref_eval(st2, x[r], cp)) - float(c01.ref_eval(st2, x[r], cm))) / (6 * h)
+                if not (math.isfinite(fd3) and abs(fd - fd3) <= 2e-5 * (1 + abs(fd))):
+                    continue
                 an = float(np.asarray(dfdc)[r, j])
                 if math.isfinite(fd) and not (abs(an - fd) <= 2e-4 * (1 + abs(fd))):
                     orc["viol"].append("d/dC_%d at %r is %r, finite differences give %r; stack %r constants %r"
@@ -189,7 +212,8 @@ def check(rep, proof):
              "abs/sqrt/log arguments and denominators away from 0), exact zero for unused inputs, value = plain evaluation",
         samples=[cases[0]] + orc["samples"][:1],
         correspondence=dict(cases=len(cases), disagreements=len(bad)),
-        oracle=dict(stacks=orc["checks"], admissible_points=orc["admissible"], violations=len(orc["viol"])),
+        oracle=dict(stacks=orc["checks"], admissible_points=orc["admissible"], violations=len(orc["viol"]),
+                    instances_of_known_finding_F9b=orc.get("f9b_instances", 0)),
         oracle_violations=len(oracle_bad) + len(orc["viol"]),
     )
     rep.assumptions += [
